@@ -135,6 +135,13 @@ CLAIMS = {
         "bounded stand-in (labelled bounded, not counted as proved).",
    note="Mixed level: proof for companion form, pole map, blanking and table layout; bounded for coefficient recovery. Trusted: eig/solve kernels, complex log / sqrt axioms, lazy-sum calculus.",
    design="6 (C05)", technique="contract-based deductive verification (pyvc AST->VC, z3; kernels uninterpreted, structured block indices, loop invariants); bounded native stand-in for coefficient recovery"),
+ "C03": dict(
+   text="Deductive proof from the real source of gen.pre_multisetup (the reference/roving split made when a PreGER object is built and after every preprocessing step): every dataset is split into "
+        "'ref' = the listed reference channels in the listed order and 'mov' = the remaining channels in ascending order, every channel's samples intact (enumeration lemmas; datasets enumerated: 2; channel counts, "
+        "reference lists and lengths symbolic). The identification clause (multi-setup SSI returns the global frequencies, damping and shapes - references first, then each setup's roving sensors - independent of "
+        "per-setup gains) is a numerical theorem and is checked only by a bounded stand-in on noise-free multi-setup data through MultiSetup_PreGER (labelled bounded, not counted as proved).",
+   note="Mixed level: proof for the split clause, bounded for the identification clause.",
+   design="6 (C03)", technique="contract-based deductive verification (pyvc AST->VC, z3) for the split; bounded native stand-in for the identification theorem"),
 }
 NOT_APPLICABLE = {
  "C07": "accuracy tolerance (2.5 % / 15 %) of a floating-point FFT/peak-picking/regression pipeline: no contract over exact reals can state or discharge it (DESIGN.md section 8); its scale-invariance clause is covered under C08",
